@@ -131,6 +131,19 @@ Theorem c06_apply_ops_drop_failed_add_table : forall (ops1 ops2 : list op) t d m
   fold_left apply_op (ops1 ++ (4, t, d) :: ops2) (Some m0) = fold_left apply_op (ops1 ++ ops2) (Some m0).
 Proof. exact apply_ops_drop_failed_add_table. Qed.
 
+(* build(&mut self) drains the builder — every binding, zero-length tables included — so a reused builder
+   starts the next font from the empty map: nothing of the previous font is listed, and no stale entry can
+   make copy_missing_tables skip a tag *)
+Theorem c06_build_drains : forall m, after_build m = [].
+Proof. exact build_drains. Qed.
+Theorem c06_build_drains_observations : forall m t,
+  lookup t (after_build m) = None /\ contains (after_build m) t = false.
+Proof. exact build_drains_observations. Qed.
+Theorem c06_apply_ops_reuse : forall (ops1 ops2 : list op) file m0 m1,
+  fold_left apply_op ops1 (Some m0) = Some m1 -> build m1 = Some file ->
+  fold_left apply_op (ops1 ++ (6, 0, file) :: ops2) (Some m0) = fold_left apply_op ops2 (Some []).
+Proof. exact apply_ops_reuse. Qed.
+
 (* the bound on the number of tables in [pre] is sharp: from 4096 tables on build() panics *)
 Theorem c06_build_precondition_sharp : forall m, 4096 <= len m -> build m = None.
 Proof. exact build_too_many. Qed.
@@ -160,3 +173,6 @@ Print Assumptions c06_add_table_err_observations.
 Print Assumptions c06_add_table_ok_is_add_raw.
 Print Assumptions c06_failed_add_table_does_not_mask_copy.
 Print Assumptions c06_apply_ops_drop_failed_add_table.
+Print Assumptions c06_build_drains.
+Print Assumptions c06_build_drains_observations.
+Print Assumptions c06_apply_ops_reuse.
